@@ -166,8 +166,13 @@ def run(ctx):
         call = prog.find_method(cls, "__call__")
         if call is None or call.cls is not cls:
             continue
-        served = reads_in_returns(ctx, call, lambda x: isinstance(x, ast.Subscript) and isinstance(x.value, ast.Attribute)
-                                  and isinstance(x.value.value, ast.Name) and x.value.value.id == call.self_name)
+        def from_own_container(x):
+            # self.<attr>[key]  |  self.<attr>.get(key) / .pop(key) / .setdefault(key, ...)
+            if isinstance(x, ast.Subscript) and isinstance(x.value, ast.Attribute) and isinstance(x.value.value, ast.Name) and x.value.value.id == call.self_name:
+                return True
+            return isinstance(x, ast.Call) and isinstance(x.func, ast.Attribute) and x.func.attr in ("get", "pop", "setdefault") and isinstance(x.func.value, ast.Attribute) \
+                and isinstance(x.func.value.value, ast.Name) and x.func.value.value.id == call.self_name
+        served = reads_in_returns(ctx, call, from_own_container)
         if served is None:
             continue
         init = prog.find_method(cls, "__init__")
@@ -332,8 +337,12 @@ def decorator_instance(ctx, f, cls, site):
                 holds_container = True
     served = None
     if call is not None:
-        served = reads_in_returns(ctx, call, lambda x: isinstance(x, ast.Subscript) and isinstance(x.value, ast.Attribute)
-                                  and isinstance(x.value.value, ast.Name) and x.value.value.id == call.self_name)
+        def from_own_container(x):
+            if isinstance(x, ast.Subscript) and isinstance(x.value, ast.Attribute) and isinstance(x.value.value, ast.Name) and x.value.value.id == call.self_name:
+                return True
+            return isinstance(x, ast.Call) and isinstance(x.func, ast.Attribute) and x.func.attr in ("get", "pop", "setdefault") and isinstance(x.func.value, ast.Attribute) \
+                and isinstance(x.func.value.value, ast.Name) and x.func.value.value.id == call.self_name
+        served = reads_in_returns(ctx, call, from_own_container)
     if not (holds_container and served is not None):
         ctx.holds("C09.3", f, "decorator class %s keeps no container from which results are served" % cls.name, "@%s %s" % (cls.name, f.name))
         return
